@@ -3,7 +3,8 @@ from common import COMMON_TB
 PROP = {
     "bin": "c01",
     "prop_file": "Properties/C01.v",
-    "model_files": ["Storage/Crash.v", "Storage/CrashProofs.v", "Storage/Proto.v", "Storage/ProtoProofs.v"],
+    "model_files": ["Storage/Crash.v", "Storage/CrashProofs.v", "Storage/Proto.v", "Storage/ProtoProofs.v",
+                    "Storage/WriteOnce.v", "Storage/WriteOnceProofs.v", "Storage/WriterStack.v", "Storage/WriterStackProofs.v"],
     "level": "proof",
     "engine": "E1-storage",
     "harness_timeout": 1500,
@@ -18,7 +19,13 @@ PROP = {
                   "writer commits and garbage-collects. C01_all_histories: a protocol model of the writer (segment finalisation by workers, advance_deletes, save_metas = "
                   "sync / atomic write / sync with both syncs pinned from the source, schedule_commit, merges whose file creations interleave anywhere and end_merge on "
                   "the updater thread, garbage collection against the living set, rollback, reopen; explicit scheduler oracle) is proved to emit only accepted traces for "
-                  "EVERY operation list and schedule, hence C01_all_histories_crash_safe; four unsafe protocol variants are refuted by witnesses. Partial: resumability "
+                  "EVERY operation list and schedule, hence C01_all_histories_crash_safe; four unsafe protocol variants are refuted by witnesses. The two assumptions the "
+                  "persistence model makes about the Directory are themselves discharged: (1) WriteOnce.v - stream files obey create / append* / terminate / nothing afterwards "
+                  "(C01_terminated_data_is_durable, C01_terminated_data_is_final; tie: the write-level VerifDirectory log of every run goes through wmonitor in Coq, and crash "
+                  "images lose whatever was appended after the last terminate); (2) WriterStack.v - the ORDER of the durability primitives of the real directory "
+                  "(FooterProxy / BufWriter / SafeFileWriter terminate, MmapDirectory::atomic_write) is regenerated from the source by tools/pin.py and proved to make payload+footer "
+                  "durable (C01_terminate_makes_everything_durable) and the replace atomic at every crash point, for both fates of the rename and every amount of un-synced data "
+                  "(C01_atomic_write_is_atomic, C01_disciplined_replace_is_atomic); the two wrong orders are refuted by witnesses and explored exhaustively on the model by the harness. Partial: resumability "
                   "(a recovered image re-establishes the protocol invariant) is observed on the implementation, not proved; the protocol trace is not compared "
                   "event-by-event with observed traces (observed traces go through the monitor).",
     "level_note": "Trusted: Coq kernel + vm_compute; the VerifDirectory log faithfully records the operations tantivy issues through the Directory trait; the "
@@ -29,7 +36,7 @@ PROP = {
     "rule": "histories of 6-40 operations over {add, delete_term, commit, rollback, merge, reopen, gc, wait_merges} on 1-3 threads; non-trivial = >= 2 commits, "
             ">= 1 delete and >= 1 merge or rollback; crash points near every meta.json write / commit return / file deletion plus random points, outcomes "
             "{none, all, random subsets} of the pending directory operations",
-    "trusted_base": COMMON_TB + ["persistence model of coq/Storage/Crash.v (assumed of the OS)", "harness/src/e1.rs CrashSim re-implements that model over bytes"],
+    "trusted_base": COMMON_TB + ["tools/pindefs/storage.py call_order: syntactic extraction of the order of write_all / flush / sync_data / persist / append_footer / terminate calls in four function bodies", "persistence model of coq/Storage/Crash.v (assumed of the OS)", "harness/src/e1.rs CrashSim re-implements that model over bytes"],
     "assumptions": ["the OS honours fsync / rename / directory fsync as modelled", "torn writes inside an fsynced file do not occur"],
 }
 
